@@ -9,16 +9,18 @@
 // the same index the scenario also exists in a "shared" flavour (the very same *Part pointer instead of own copies).
 // For every scenario ALL schedules with <= bound preemptions are executed (CHESS iterative context bounding) and
 // after every complete execution:
-//   S1 no panic, no deadlock, every thread terminates
-//   S2 a good part never returns an error; among all AddPart(good i) (incl. the pre-fill) exactly one reports
-//      added=true; one that reports "not added" overlaps or follows an operation that offered the same index
-//   S3 a corrupted part is never added; it returns ErrPartSetInvalidProof, or nil only if the index was offered
-//      (duplicate short cut) before the call returned
-//   S4 an observer sees at index i only nil or a good part i with the original bytes, never before it was offered,
-//      and never misses a part whose AddPart had returned added=true before the observation started (same for bits)
-//   S5 final state == model: Count() == number of distinct indices offered, bit array, stored bytes, IsComplete() iff
-//      all indices present; the stored part is the one whose AddPart reported added=true; a complete set reads back
-//      the original bytes (several buffer sizes), an incomplete one refuses GetReader().
+//
+//	S1 no panic, no deadlock, every thread terminates
+//	S2 a good part never returns an error; among all AddPart(good i) (incl. the pre-fill) exactly one reports
+//	   added=true; one that reports "not added" overlaps or follows an operation that offered the same index
+//	S3 a corrupted part is never added; it returns ErrPartSetInvalidProof, or nil only if the index was offered
+//	   (duplicate short cut) before the call returned
+//	S4 an observer sees at index i only nil or a good part i with the original bytes, never before it was offered,
+//	   and never misses a part whose AddPart had returned added=true before the observation started (same for bits)
+//	S5 final state == model: Count() == number of distinct indices offered, bit array, stored bytes, IsComplete() iff
+//	   all indices present; the stored part is the one whose AddPart reported added=true; a complete set reads back
+//	   the original bytes (several buffer sizes), an incomplete one refuses GetReader().
+//
 // The same scenario bodies also run free (real goroutines, real sync) in a separate -race build.
 package main
 
@@ -741,7 +743,11 @@ func raceKey(s string) string {
 	return "unknown"
 }
 
-func schedulePhase(r *vk.Run, raceBin string, workerBudget time.Duration) map[string]any {
+// schedulePhase runs the exploration and the race pass; the returned function reports their violations (called by main
+// after the sequential phase so that the 20 violations vk prints are not all taken by one phase).
+func schedulePhase(r *vk.Run, raceBin string, workerBudget time.Duration) (map[string]any, func()) {
+	var deferred []func()
+	report := func(key string, detail any) { deferred = append(deferred, func() { r.Violation(key, detail) }) }
 	bound := 2
 	nw := 8
 	if r.Thorough() {
@@ -831,7 +837,7 @@ func schedulePhase(r *vk.Run, raceBin string, workerBudget time.Duration) map[st
 		if shown[v.Class]++; shown[v.Class] > 4 {
 			continue // the 4 smallest scenarios per class are reported; the count of the others is in the detail
 		}
-		r.Violation(fmt.Sprintf("sched[%s]:%s", v.Scenario, v.Class), map[string]any{"violation": v, "scenario_spec": v.Spec, "schedule": v.Schedule,
+		report(fmt.Sprintf("sched[%s]:%s", v.Scenario, v.Class), map[string]any{"violation": v, "scenario_spec": v.Spec, "schedule": v.Schedule,
 			"scenarios_violating_with_this_class": perClass[v.Class]})
 	}
 	if tot.SampleName != "" {
@@ -850,16 +856,16 @@ func schedulePhase(r *vk.Run, raceBin string, workerBudget time.Duration) map[st
 		s := string(out)
 		switch {
 		case strings.Contains(s, "DATA RACE"):
-			r.Violation("data-race:"+raceKey(s), map[string]any{"output": tail(s, 6000)})
+			report("data-race:"+raceKey(s), map[string]any{"output": tail(s, 6000)})
 			raceNote = "DATA RACE reported"
 		case strings.Contains(s, "FREERUN-STUCK"):
-			r.Violation("freerun:stuck", map[string]any{"output": tail(s, 4000)})
+			report("freerun:stuck", map[string]any{"output": tail(s, 4000)})
 			raceNote = "free-running execution did not terminate"
 		case strings.Contains(s, "FREERUN-ORACLE"):
 			for _, l := range strings.Split(s, "\n") {
 				if strings.HasPrefix(l, "FREERUN-ORACLE class=") {
 					c := strings.Fields(l[len("FREERUN-ORACLE class="):])[0]
-					r.Violation("freerun:"+c, map[string]any{"line": l})
+					report("freerun:"+c, map[string]any{"line": l})
 				}
 			}
 			raceNote = "free-running oracle failure"
@@ -870,11 +876,15 @@ func schedulePhase(r *vk.Run, raceBin string, workerBudget time.Duration) map[st
 		}
 	}
 	return map[string]any{
-		"schedule_scenarios": tot.Scenarios, "schedules": tot.Execs, "schedules_with_preemption": tot.Preempted,
-		"schedules_by_threads": tot.ExecsByT, "preemption_bound": bound, "max_scheduling_points": tot.MaxPoints,
-		"max_schedules_one_scenario": tot.MaxExecs, "race_pass": raceNote,
-		"phase_wall_s": map[string]float64{"schedules": schedWall, "race_pass": time.Since(tRace).Seconds()},
-	}
+			"schedule_scenarios": tot.Scenarios, "schedules": tot.Execs, "schedules_with_preemption": tot.Preempted,
+			"schedules_by_threads": tot.ExecsByT, "preemption_bound": bound, "max_scheduling_points": tot.MaxPoints,
+			"max_schedules_one_scenario": tot.MaxExecs, "race_pass": raceNote,
+			"phase_wall_s": map[string]float64{"schedules": schedWall, "race_pass": time.Since(tRace).Seconds()},
+		}, func() {
+			for _, f := range deferred {
+				f()
+			}
+		}
 }
 
 func replaySched(r *vk.Run) {
